@@ -974,13 +974,20 @@ fn definition_histories(ctx: &mut Ctx) {
             1 => ReferenceContents::Syntax(SymbolicBDD::False),
             2 => ReferenceContents::Syntax(v("a").map(SymbolicBDD::Var).unwrap_or(SymbolicBDD::True)),
             3 => ReferenceContents::BDD(v("b").map(|b| p.env.var(b)).unwrap_or_else(|| p.env.mk_const(true))),
-            _ => ReferenceContents::Syntax(SymbolicBDD::Not(Box::new(v("b").map(SymbolicBDD::Var).unwrap_or(SymbolicBDD::False)))),
+            // a definition that itself refers to the other name (only ever stored under f)
+            _ => ReferenceContents::Syntax(SymbolicBDD::BinaryOp(rsbdd::parser::BinaryOperator::Or, Box::new(SymbolicBDD::Reference("g".to_string())), Box::new(SymbolicBDD::Not(Box::new(v("b").map(SymbolicBDD::Var).unwrap_or(SymbolicBDD::False)))))),
         }
     };
     let apply = |p: &ParsedFormula, step: usize| {
         if step >= 1 {
             let (name, k) = if step <= 5 { ("f", step - 1) } else { ("g", step - 6) };
-            p.define(name, content(p, k));
+            if name == "g" && k == 4 {
+                // g must not refer to itself: the fifth content of g is a plain literal
+                let b = p.vars.iter().find(|s| s.name.as_str() == "b").cloned();
+                p.define("g", ReferenceContents::Syntax(b.map(SymbolicBDD::Var).unwrap_or(SymbolicBDD::True)));
+            } else {
+                p.define(name, content(p, k));
+            }
         }
     };
     let ordering: Vec<NamedSymbol> = ["a", "b", "X"].iter().enumerate().map(|(i, n)| crate::conv::sym(n, i * 2 + 1)).collect();
